@@ -93,3 +93,11 @@ claim("C08", "Names.tla treats a name as an opaque token and states what each st
       "TLC judgement of recorded name tours (Names.tla) + FtpCore trace validation",
       note="Trusted base: TLC; names needing a trailing blank, lone surrogates and names longer than 200 bytes are outside the family; "
            "the LIST-fallback spelling of names is C07's subject.")
+claim("C07", "LsTime.tla contains the calendar arithmetic (days<->civil, leap rule) in integers and the precision rules of the MLSx and "
+      "ls formats (UTC seconds; local minute within the last half year, local day otherwise; one-day ambiguity window). TLC judges "
+      "(a) tens of thousands of (mtime, now, zone) pairs pushed through the real Server.build_list_mtime -> Client.parse_ls_date and "
+      "_format_mlsx_time, and (b) what the real client's list()/stat() return over MLSD/MLST and over the LIST fallback for directories "
+      "with spoofed sizes (to 2^40), times and hostile names under a controlled current time, against the backend's truth; entry sets of "
+      "every listing are also checked inside FtpCore trace validation.", "TLC judgement of recorded formatter/parser pairs and client listings against LsTime.tla",
+      note="Trusted base: TLC; only fixed-offset zones (DST zones excluded: the year-less format is ambiguous in the repeated hour); "
+           "only the C/POSIX locales exist in the sandbox; years 1970-2037 (32-bit integers in TLC).")
